@@ -504,6 +504,12 @@ class SymbolKindFinder:
                 if not stmt_queue:
                     # {{{ provide a usable error message if no progress
 
+                    if not made_progress and result.is_changed():
+                        # Kinds were found or widened during this pass, and
+                        # they may be just what the left-over statements
+                        # are waiting for: start another pass.
+                        break
+
                     if not made_progress:
                         print("Left-over statements in kind inference:")
                         for phase_name, stmt in stmt_queue_push_buffer:
